@@ -26,7 +26,7 @@ func ruleRestoreCommitted() *Rule {
 		ID: id,
 		Text: "restore() leaves in r.committedConfiguration a configuration that accounts for what the node has applied: after the walk over the log's configuration entries " +
 			"a store to r.committedConfiguration of (a copy of) the configuration in force is guarded by configuration.Index <= r.lastApplied (or r.commitIndex), equality included.",
-		Floor: 1,
+		Floor: 2,
 		Run: func(p *Program) []Obligation {
 			const fname = "(*Raft).restore"
 			fn := p.Func(fname)
@@ -185,7 +185,25 @@ func ruleRestoreCommitted() *Rule {
 					"A node stopped and started again in place keeps lastApplied and its state machine, so a last configuration entry that was applied before the stop is never applied again: " +
 					"pendingConfigurationChange() stays true (every membership change is refused) and takeSnapshot labels snapshots with a configuration older than the one committed at their index"
 			}
-			return []Obligation{ob}
+			// (D46) the walk asks `r.configuration != nil` to decide whether a configuration precedes the entry it has
+			// found: what it sees there must have been written by this very restore(), not left over from before
+			ob2 := Obligation{Rule: id, Construct: "the walk of restore() starts from configurations written by this restore(), in " + fname, Pos: p.InstrPos(walk)}
+			fresh := map[*types.Var]bool{}
+			for _, b := range fn.Blocks {
+				for _, in := range b.Instrs {
+					if s, f := storeField(in); s != nil && (f == cfgFld || f == comFld) && s != walk && b != walk.Block() && b.Dominates(walk.Block()) && !blockReaches(b, b) {
+						fresh[f] = true
+					}
+				}
+			}
+			if fresh[cfgFld] && fresh[comFld] {
+				ob2.Verdict, ob2.Detail = Discharged, "r.configuration and r.committedConfiguration are both assigned on every path before the loop over the log"
+			} else {
+				ob2.Verdict = Violated
+				ob2.Detail = "on some path the loop over the log starts with the r.configuration / r.committedConfiguration the node had in memory before restore() (NewRaft followed by Restart, or Stop followed by Start, run restore() on a node that has them): " +
+					"the first configuration entry found is then taken to be preceded by a committed one, and pendingConfigurationChange() is false although that entry has not been applied"
+			}
+			return []Obligation{ob, ob2}
 		},
 	}
 }
